@@ -12,778 +12,631 @@ Definition show_fres (r : fres) : string :=
   end.
 Definition check (rs : list rune) : string := digest (show_fres (format_res rs)).
 Definition full (rs : list rune) : string := show_fres (format_res rs).
-Eval vm_compute in ("<<<M1330>>>" ++ check (runes_of_ascii "options {
-    // c1
-FixedStringPadFromLeft // c2
-= // c3
-true
-    // c4
-;
-    // c5
-FixedStringPadChar // c6
-=
-    // c7
-'0' // c8
-; // c9
-} packet Leg { // c13a
-  // c13b
-InPrice0
-    // c14
-{ // c15
-repeat
-    // c16
-string // c17a
-  // c17b
-clOrdID // c18
-,
-    // c19
-int16 // c20a
-  // c20b
-msgKind ,
-    // c22
-zchar[
-    // c23
-5 // c24
-] // c25
-Px // c26a
-  // c26b
-, // c27a
-  // c27b
-} // c28a
-  // c28b
-,
-    // c29
-i16 // c30
-f1
-    // c31
-,
-    // c32
-repeat // c33a
-  // c33b
-f64 // c34a
-  // c34b
-Side2
-    // c35
-,
-    // c36
-string // c37
-Acct // c38
-,
-    // c39
-} packet // c41a
-  // c41b
-Cancel // c42
-{
-    // c43
-zchar[ // c44a
-  // c44b
-4 // c45
-] // c46a
-  // c46b
-clOrdID , // c48a
-  // c48b
-string
-    // c49
-seqNo // c50
-, // c51
-Leg
-    // c52
-,
-    // c53
-@leftPad // c54
-(
-    // c55
-'0'
-    // c56
-) // c57
-char[
-    // c58
-11 // c59
-] OrderId // c61
-, // c62
-} // c63a
-  // c63b
-packet
-    // c64
-Quote // c65a
-  // c65b
-{
-    // c66
-repeat // c67a
-  // c67b
-char[ // c68
-4 ]
-    // c70
-sym , f64 // c73a
-  // c73b
-OrderId
-    // c74
-, repeat Leg // c77
-,
-    // c78
-repeat // c79a
-  // c79b
-i64 f1
-    // c81
-, int16 // c83
-Note // c84
-, // c85
-zchar[ // c86a
-  // c86b
-3 ] // c88
-count // c89a
-  // c89b
-, // c90
-}
-    // c91
-root packet // c93
-Ack
-    // c94
-{ // c95
-@leftPad // c96
-(
-    // c97
-' '
-    // c98
-)
-    // c99
-char[ 10 // c101
-] // c102a
-  // c102b
-sym
-    // c103
-,
-    // c104
-InPx60 // c105
-{ Cancel // c107
-, // c108a
-  // c108b
-repeat char[ 1
-    // c111
-] // c112a
-  // c112b
-f1 , // c114a
-  // c114b
-string // c115a
-  // c115b
-Tail , // c117
-repeat
-    // c118
-InNote55 {
-    // c120
-int8 // c121
-count
-    // c122
-, // c123a
-  // c123b
-f64 // c124
-f1 // c125
-, repeat // c127a
-  // c127b
-Cancel // c128
-,
-    // c129
-} // c130
-, char[] // c132
-tag7 , // c134a
-  // c134b
-repeat // c135a
-  // c135b
-string msgKind , // c138a
-  // c138b
-} // c139a
-  // c139b
-, // c140
-u8
-    // c141
-lastPx // c142
-, // c143
-match lastPx
-    // c145
-as // c146a
-  // c146b
-Body // c147
-{ // c148a
-  // c148b
-152 // c149
-: // c150a
-  // c150b
-Quote , 173 :
-    // c154
-Cancel // c155
-,
-    // c156
-4
-    // c157
-: Leg , // c160a
-  // c160b
-} , // c162a
-  // c162b
-u16 Ref
-    // c164
-@calculatedFrom( // c165
-""CRC32"" ) // c167a
-  // c167b
-, } // c169
-")).
-Eval vm_compute in ("<<<M386>>>" ++ check (runes_of_ascii "options {
-    StringPrefixLenType = u16;
-    ArrayPrefixLenType = u16;
-}
-
-packet SampleBinary {
-    uint16 MsgType `" ++ [28040; 24687; 31867; 22411]%N ++ runes_of_ascii "`,
-    u16 BodyLenght @lengthOf(Body) `" ++ [28040; 24687; 20307; 38271; 24230]%N ++ runes_of_ascii "`,
-    match MsgType as Body {
-        1 : Logon,
-        2 : Logout,
-        3 : Heartbeat,
-        4 : RiskControlRequest,
-        5 : RiskControlResponse,
+Eval vm_compute in ("<<<M1469>>>" ++ check (runes_of_ascii "packet Z9_ {
+    @calculatedFrom(""1"")
+    match body as u8x {
+        [7] : u,
+        [
+            7, 00, 00, ""a\""b"", """",
+            ""\n""
+        ] : charz,
+        1 : Packet,
+        """ ++ [28040; 24687]%N ++ runes_of_ascii """ : f32a,
+        00 : len,
     },
-    @calculatedFrom(""CRC32"")
-    u32 Ckecksum `" ++ [26657; 39564; 21644]%N ++ runes_of_ascii "`,
-}
-
-packet Logon {
-    @leftPad('0')
-    char[10] UserName `" ++ [29992; 25143; 21517]%N ++ runes_of_ascii "`,
-    string Password `" ++ [23494; 30721]%N ++ runes_of_ascii "`,
-    uint64 ClientId `" ++ [23458; 25143; 31471]%N ++ runes_of_ascii "ID`,
-    u16 HeartbeatInterval `" ++ [24515; 36339; 38388; 38548]%N ++ runes_of_ascii "`,
-}
-
-packet Logout {
-    @rightPad('0')
-    char[10] UserName `" ++ [29992; 25143; 21517]%N ++ runes_of_ascii "`,
-    uint64 ClientId `" ++ [23458; 25143; 31471]%N ++ runes_of_ascii "ID`,
-}
-
-packet Heartbeat {
-}
-
-packet RiskControlRequest {
-    string UniqueOrderId `" ++ [21807; 19968; 35746; 21333; 21495]%N ++ runes_of_ascii "`,
-    char[16] ClOrdID `" ++ [23458; 25143; 35746; 21333; 21495]%N ++ runes_of_ascii "`,
-    char[3] MarketID `" ++ [24066; 22330]%N ++ runes_of_ascii "id`,
-    char[12] SecurityID `" ++ [35777; 21048; 20195; 30721]%N ++ runes_of_ascii "`,
-    char Side `" ++ [20080; 21334; 26041; 21521]%N ++ runes_of_ascii "`,
-    char OrderType `" ++ [35746; 21333; 31867; 22411]%N ++ runes_of_ascii "`,
-    u64 Price `" ++ [20215; 26684]%N ++ runes_of_ascii "`,
-    u32 Qty `" ++ [25968; 37327]%N ++ runes_of_ascii "`,
-    repeat string ExtraInfo `" ++ [38468; 21152; 20449; 24687]%N ++ runes_of_ascii "`,
-    repeat SubOrder {
-        char[16] ClOrdID `" ++ [23376; 35746; 21333; 21495]%N ++ runes_of_ascii "`,
-        u64 Price `" ++ [23376; 35746; 21333; 20215; 26684]%N ++ runes_of_ascii "`,
-        u32 Qty `" ++ [23376; 35746; 21333; 25968; 37327]%N ++ runes_of_ascii "`,
+    @lengthOf(calculatedFrom)
+    MetaDataX,
+    Packet @lengthOf(int),
+    repeat char[7] calculatedFrom,
+    @calculatedFrom(""a\\"")
+    zchar[255] f32a @calculatedFrom(""" ++ [233]%N ++ runes_of_ascii "t" ++ [233]%N ++ runes_of_ascii """),
+    @calculatedFrom(""a\""b"")
+    char[7] i8i8 @calculatedFrom(""a\\"") `crlf
+        line`,
+    zchar[0123456789] x `line1
+        line2`,
+    @leftPad()
+    repeat u64 stringy,
+    @lengthOf(x)
+    repeat body {
+        //	t
+        Z9_ {
+            repeat asx,
+            repeat crc i64_,
+            repeat rootA {
+                repeat rootA MetaDataX `line1
+                                line2`,
+                match i64_ as calculatedFrom {
+                    7 : x,
+                    [7] : stringy,
+                    ""1"" : i8i8,
+                    [
+                        42, 10, 255, 0, 10,
+                        ""1"", """ ++ [233]%N ++ runes_of_ascii "t" ++ [233]%N ++ runes_of_ascii """
+                    ] : u,
+                    ""x y"" : i8i8,
+                },
+                uint64 _x `
+                                `,
+                char[0] i64_ @calculatedFrom(""CRC32""),
+            },
+            x_y_z {
+                char[] T,
+            },
+        },
+        repeat u64 Foo `a\`,
+        uint8 uint8x,
+        match roots as chars {
+            1 : _x,
+            ""a\""b"" : uint8x,
+            42 : metadata,
+            // `tick` ""quote"" 'q'
+            [255, ""\n""] : zchar,
+            [
+                3, 4294967296, 0123456789,
+                """ ++ [233]%N ++ runes_of_ascii "t" ++ [233]%N ++ runes_of_ascii """, ""x y""
+            ] : metadata,
+            [""it's"", ""// no comment""] : Z9_,
+        },
     },
+}// a // b
+
+MetaData rootA {
+    char[4294967296] msg_type,
+    char[] u128,
+    uint64 a1,
+    int8 crc,
+    Pad msg_type `doc`,
 }
 
-packet RiskControlResponse {
-    string UniqueOrderId `" ++ [21807; 19968; 35746; 21333; 21495]%N ++ runes_of_ascii "`,
-    i32 Status `" ++ [29366; 24577]%N ++ runes_of_ascii "`,
-    string Msg `" ++ [32467; 26524; 20449; 24687]%N ++ runes_of_ascii "`,
-    repeat Detail,
-}
-
-packet Detail {
-    string RuleName `" ++ [35268; 21017; 21517; 31216]%N ++ runes_of_ascii "`,
-    u16 Code `" ++ [21407; 22240; 20195; 30721]%N ++ runes_of_ascii "`,
+//	t
+/// triple
+packet x_y_z {
+    @lengthOf(crc)
+    match packetx as f32a {
+        0123456789 : A,
+        00 : u,
+    },
 }")).
-Eval vm_compute in ("<<<M1536>>>" ++ check (runes_of_ascii "
-packet
-
-pack
-
-{@lengthOf(
-Foo 
-// c
-    ) asx
-@lengthOf(  _x )  /// triple
-
-	,
-u8
-	x_y_z
-`two words`
+Eval vm_compute in ("<<<M156>>>" ++ check (runes_of_ascii "packet
+A { @rightPad ( '0' ) repeat	i8i8
+    { zchar[ 007 ]
+    packetx,
+    metadata `" ++ [28040; 24687; 31867; 22411]%N ++ runes_of_ascii "` ,	repeat float64  T ,}, @tag(0)Z9_ { int
+@lengthOf( tag
+)`line1
+line2`
+, repeat i8i8 // packet A { u8 x, }
+{  zchar[  00 ]stringy
 ,
-repeat
-	zchar[ 0
+repeat f32a{ match i64_ //
+as
+    string_ {[ 255 , ""{,}"" , 0123456789 ]
+: x_y_z
+, """ ++ [233]%N ++ runes_of_ascii "t" ++ [233]%N ++ runes_of_ascii """ : A
+, ""`tick`"" : len ,} , } ,
+    //
+    repeat u8x {u16 Z9_
+@calculatedFrom(""" ++ [128512]%N ++ runes_of_ascii """ ) `line1
+line2` ,f32 matchKey
+    ,} ,// " ++ [27880; 37322]%N ++ runes_of_ascii "
+float64 u8x `
+`,
+    },//
+} , // `tick` ""quote"" 'q'
+a1	{ repeat
+    // trailing space 
+    zchar[ 007
+] Foo `two words`
+,f32a	@calculatedFrom( """ ++ [28040; 24687]%N ++ runes_of_ascii """// trailing space 
+) ,int64 i64_  @calculatedFrom( // trailing space 
+""`tick`"" ) , } ,
+    @lengthOf(
+    // c
+    Header )	f32
+stringy @calculatedFrom(
+""x y"" )`say ""hi""` , Foo , float64
+BodyLength@calculatedFrom( // " ++ [27880; 37322]%N ++ runes_of_ascii "
+""packet"") ,
+    uint32
+// packet A { u8 x, }
+//
+int
+//
+//x
+, } packet string_{ @tag( 4294967296
+) repeat u
+`two words` , repeat zchar[ 0 ]
+BodyLength
+, @tag( 255 )/// triple
+int `line1
+line2` ,	uint8x`it's`,@tag(
+65535 )
+int8
+    metadata
+`" ++ [233]%N ++ runes_of_ascii "` ,/// triple
+match
+options1
+//x
+// " ++ [128512]%N ++ runes_of_ascii " emoji
+as
+    float// packet A { u8 x, }
+{ 3: f32a , """ ++ [28040; 24687]%N ++ runes_of_ascii """
+    : charz
+,}
+,match uint8x	as
+string_ { ""CRC32"" //x
+:
+x
+, } , uint8	packetx`crlf
+line` ,
+@leftPad (
+)
+    zchar[
+0
+] Foo `say ""hi""`, }
+")).
+Eval vm_compute in ("<<<M359>>>" ++ check (runes_of_ascii "root	packet // @lengthOf(
+repeatCount {
+    @lengthOf(u8x
+) @calculatedFrom(""1"" ) @tag( 007 ) repeat zchar[
+42 ] Header
+    `" ++ [28040; 24687; 31867; 22411]%N ++ runes_of_ascii "` , match options1 as asx
+{ 255
+    // `tick` ""quote"" 'q'
+    :
+    roots , }, // a // b
+Header
+    @lengthOf(
+    // a // b
+    options1	) `` , Header //	t
+@lengthOf(
+    len )`{ , }`
+, o matchKey `u8 x,` ,} packet packetx {zchar[
+255
 ]
-
-roots `
-` 
-    // `tick` ""quote"" 'q'
-  , lengthOf@calculatedFrom(""abc""
-
-) 
-,
-	@tag(	3)	@rightPad ( ' ')	@calculatedFrom(
-""1"" 
-      //x
-	// " ++ [27880; 37322]%N ++ runes_of_ascii "
-		)
-	repeat
-uint64  i64_ 	 // trailing space 
-    `say ""hi""`// @lengthOf(
-
-, 
-@tag( 007 
-)match roots
-
-    as 
-float
-
-{
-	""a	b""
-: lengthOf
-
-,[ 1
-,  // @lengthOf(
-	""\n""	, ""a\""b"",
-	""\" ++ [233]%N ++ runes_of_ascii """ ,  ""1"" , 42]
-    :  msg_type  , 
-""" ++ [128512]%N ++ runes_of_ascii """
-: Foo }  ,
-    T //x
-
-  {	match  Header
-	as	trueish
-
-    { 
-[ 
-    // `tick` ""quote"" 'q'
-
-// @lengthOf(
-0 ,
-	3 // @lengthOf(
-  	,
-""{,}"",""1""
-,00 ,	0123456789
-, ""// no comment""
-]:As
-
-,
-    }
-
-,
-    }
-	,
-repeat char[
-	10  ] o 
-`
-`
-
-,@calculatedFrom( 
-	//
-  ""`tick`""	//x
-	  )
-	repeat
-    crc
-    {  repeatCount
-    o
-
-    ,  u8x	As
-,
-    }
-
-    ,}
-
+crc
+    , }
     packet
-    pack
-	{ 
-@calculatedFrom(
-
-    """ ++ [233]%N ++ runes_of_ascii "t" ++ [233]%N ++ runes_of_ascii """
-)  u32 
-f32a
-    ,	}
-    MetaData  float { u32	options1
-,
-	} 
+    Logon {
+    body { float { repeat Logon  trueish ,  } , } ,	@calculatedFrom(
+    // `tick` ""quote"" 'q'
+    ""`tick`"" ) repeat char[
+    0] f32a
+,match body
+    as
+    float {[65535
+, """ ++ [28040; 24687]%N ++ runes_of_ascii """
+    ] :
+calculatedFrom ,}
+, u32 float@calculatedFrom(
+    """ ++ [233]%N ++ runes_of_ascii "t" ++ [233]%N ++ runes_of_ascii """ // @lengthOf(
+)
+, string body @lengthOf( len
+    )`
+` //
+, u8x
+@calculatedFrom( ""a\""b"")
+    //	t
+    , //	t
+float64 options1@calculatedFrom(""" ++ [128512]%N ++ runes_of_ascii """ )`it's`
+    ,
+//x
+// trailing space 
+match crc as chars
+    {
+3
+: options1 // @lengthOf(
+, [ 10 ] :_x  [ ""{,}""
+] :options1
+,[ ""CRC32"", ""a\\""  ,
+""a\\"" , ""packet"", 7
+    // `tick` ""quote"" 'q'
+    ]
+:
+As
+    } , i16 msg_type , }")).
+Eval vm_compute in ("<<<M17>>>" ++ check (runes_of_ascii "
+MetaData
+    x{ len
+    crc , float
+    // " ++ [128512]%N ++ runes_of_ascii " emoji
+    asx, i32 uint8x`line1
+line2` ,u16
+tag
+// `tick` ""quote"" 'q'
+//x
+`it's` , As string_
+    ,
+}
+packet metadata {@lengthOf(zchar )// c
+i64_ @calculatedFrom(
+""\" ++ [233]%N ++ runes_of_ascii """	) , //x
+@leftPad
+    ( '\x00' ) zchar[ 10
+] zchar
+    ,
+    lengthOf //x
+string_ ,int @lengthOf( pack
+    ),
+    zchar[ 00 ]
+    Foo , @lengthOf( packetx )
+    @leftPad (
+'\x00'// " ++ [27880; 37322]%N ++ runes_of_ascii "
+) @calculatedFrom(
+    // @lengthOf(
+    ""x y"" )uint16
+len@calculatedFrom( """" )
+`two words` , int8
+    metadata @lengthOf( Foo )`two words`	, // @lengthOf(
+}options
+{ }
 packet
-	f32a
+pack{
+// `tick` ""quote"" 'q'
+//
+f64
+    o , T BodyLength  ,
+    repeat
+    uint8 chars  `" ++ [233]%N ++ runes_of_ascii "`
+    ,repeat
+    // c
+    Logon
+u
+    // " ++ [128512]%N ++ runes_of_ascii " emoji
+    ,@tag(
+    0123456789 )
+char[] repeatCount @lengthOf(// " ++ [27880; 37322]%N ++ runes_of_ascii "
+_x )
+    // c
+    `
+` ,//
+@tag(
+// packet A { u8 x, }
+/// triple
+7 )  repeatCount @calculatedFrom(""packet"" ) `{ , }` , }")).
+Eval vm_compute in ("<<<M135>>>" ++ check (runes_of_ascii "
+packet crc
+    {@tag(	0)  @calculatedFrom(
+    ""{,}""	) @rightPad ( ' ')	repeat uint8 lengthOf // a // b
+,
+    char[	42 ] float ,
+    repeat a1 // packet A { u8 x, }
+{ match
+x_y_z as charz
+    { [
+00
+, 4294967296,
+//x
+// a // b
+""it's"",""" ++ [28040; 24687]%N ++ runes_of_ascii """ ] ://x
+zchar,	[
+    ""packet"" ,// c
+""x y"",
+""it's"" ,""abc"" ,
+""it's""
+    ] :string_ , 0 : Z9_
+}
+    // `tick` ""quote"" 'q'
+    , // `tick` ""quote"" 'q'
+} ,match u8x
+as//x
+pack {[ 0123456789
+, ""x y""
+] : // c
+trueish /// triple
+, }	,
+    @calculatedFrom( ""a\""b""
+    // c
+    ) repeat string_ `a\`,
+packetx@calculatedFrom(
+""`tick`"" ) , int64 chars `say ""hi""` , @calculatedFrom(
+""a	b"" )@leftPad (  '\x00'
+) @lengthOf(
+    repeatCount)u64
+    falsey@calculatedFrom( ""\" ++ [233]%N ++ runes_of_ascii """
+    )
+,
+repeat Header { repeat
+    metadata , char[] chars`" ++ [28040; 24687; 31867; 22411]%N ++ runes_of_ascii "` , zchar[ 10] x_y_z `a\` ,	},
+// trailing space 
+// c
+}
+")).
+Eval vm_compute in ("<<<M1349>>>" ++ check (runes_of_ascii "// top
+options
+    // c0
+{ // c1a
+  // c1b
+LittleEndian // c2a
+  // c2b
+= // c3a
+  // c3b
+false // c4a
+  // c4b
+; // c5a
+  // c5b
+StringPrefixLenType // c6
+= // c7a
+  // c7b
+u16 ; } // c10
+packet Heartbeat // c12a
+  // c12b
+{ // c13a
+  // c13b
+@rightPad ( '0'
+    // c16
+) char[ 7 // c19
+] // c20
+seqNo , // c22a
+  // c22b
+uint64 // c23a
+  // c23b
+Tail , // c25a
+  // c25b
+i16 // c26
+Flags // c27a
+  // c27b
+, // c28a
+  // c28b
+u16 // c29a
+  // c29b
+msgKind
+    // c30
+,
+    // c31
+} // c32a
+  // c32b
+root // c33
+packet // c34a
+  // c34b
+Reject // c35a
+  // c35b
+{ zchar[ 3 // c38a
+  // c38b
+] // c39
+tag7 // c40a
+  // c40b
+, // c41
+repeat // c42a
+  // c42b
+Heartbeat , repeat string
+    // c46
+clOrdID
+    // c47
+,
+    // c48
+}
+    // c49
+")).
+Eval vm_compute in ("<<<M1470>>>" ++ check (runes_of_ascii "options {
+}
+
+packet i8i8 {
+    @tag(3)
+    x @calculatedFrom(""it's""),
+    @lengthOf(f32a)
+    match rootA as uint8x {
+        0 : string_,
+        42 : Packet,
+    },
+    @leftPad('\x00')
+    i64_ packetx `u8 x,`,
+    @calculatedFrom(""x y"")
+    matchKey {
+        len,
+    },
+    @lengthOf(matchKey)
+    @calculatedFrom(""abc"")
+    @lengthOf(x_y_z)
+    /// triple
+    repeat metadata `line1
+        line2`,
+    lengthOf repeatCount,/// triple
+    int32 roots @calculatedFrom(""`tick`"") `" ++ [233]%N ++ runes_of_ascii "`,
+    zchar[1] Packet @calculatedFrom(""// no comment""),
+}
+
+packet options1 {
+    @lengthOf(uint8x)
+    A @calculatedFrom(""it's"") `doc`,
+}
+
+root packet crc {
+    char[65535] chars,
+}")).
+Eval vm_compute in ("<<<M247>>>" ++ check (runes_of_ascii "
+options { leftPad // packet A { u8 x, }
+= 0
+;
+    //
+    Logon
+    =
+char // `tick` ""quote"" 'q'
+i64_ = '\x00'
+; }
+options { crc =
+i32	; matchKey =
+255
+    leftPad = ' ' ; metadata= 42// trailing space 
+; packetx =10
+    }
+root packet//
+A { @calculatedFrom( ""x y"" // c
+)/// triple
+zchar[ 00]
+f32a, @tag(
+255 )
+    zchar[
+0123456789 ]	a1
+@lengthOf(As )`" ++ [28040; 24687; 31867; 22411]%N ++ runes_of_ascii "`
+    /// triple
+    , int16 body, // `tick` ""quote"" 'q'
+uint64
+x
+@calculatedFrom(""1""
+//	t
+// " ++ [128512]%N ++ runes_of_ascii " emoji
+) // packet A { u8 x, }
+`line1
+line2` ,@lengthOf( Logon )char[
+    0// packet A { u8 x, }
+]float@calculatedFrom(
+""abc"" ) ,
+} MetaData u128 { }
+")).
+Eval vm_compute in ("<<<M1509>>>" ++ check (runes_of_ascii "packet u128 {
+    // trailing space 
+    string Header `say ""hi""`,
+    repeat crc f32a,
+    char[10] _x,
+    @calculatedFrom(""x y"")
+    repeat charz {
+        Logon @lengthOf(T) `crlf
+                line`,
+        repeat char[0123456789] Z9_ `crlf
+                line`,
+    },
+    match Packet as float {
+        1 : lengthOf,
+    },
+    MetaDataX,
+    match x as u8x {
+        10 : crc,
+    },
+}
+
+root packet Header {
+    @calculatedFrom(""{,}"")
+    a1 {
+        char[007] pack,
+        stringy zchar,
+        repeat char[] o `it's`,
+    },
+}")).
+Eval vm_compute in ("<<<M1677>>>" ++ check (runes_of_ascii "
+packet
+    leftPad // trailing space 
+      {
+
+@tag(	10
+
+    )  @tag(
+
+007 )@lengthOf(
+a1
+) 
+    // a // b
+//
+  repeat
+metadata
+    ,
+
+} 	 // " ++ [128512]%N ++ runes_of_ascii " emoji
+options
+	// @lengthOf(
+  	{lengthOf =""" ++ [128512]%N ++ runes_of_ascii """
+;
+    }	packet  T
+	// " ++ [27880; 37322]%N ++ runes_of_ascii "
+	{
+A
 
 { 
-}")).
-Eval vm_compute in ("<<<M70>>>" ++ check (runes_of_ascii "packet pack { @lengthOf(
-Foo
-    // c
+      //
+    	// `tick` ""quote"" 'q'
+
+	tag
+@calculatedFrom(	""abc""
+)
+
+,  } 
+,@lengthOf(  matchKey
     )
-    asx @lengthOf( _x ) /// triple
-, u8	x_y_z `two words` ,repeat
-    zchar[0
-    ] roots `
-`
-    // `tick` ""quote"" 'q'
-    , lengthOf @calculatedFrom( ""abc""
-) ,
-@tag( 3 ) @rightPad	( ' ')@calculatedFrom(
-""1""
-//x
-// " ++ [27880; 37322]%N ++ runes_of_ascii "
-)
-repeat uint64 i64_ // trailing space 
-`say ""hi""` // @lengthOf(
-,	@tag( 007 ) match roots as float {	""a	b""
-    : lengthOf,
-    [1, // @lengthOf(
-""\n""
-,
-""a\""b"" , ""\" ++ [233]%N ++ runes_of_ascii """ ,  ""1"",
-    42 ]: msg_type, """ ++ [128512]%N ++ runes_of_ascii """: Foo} ,T//x
-{
-    match
-Header
-as trueish
-{ [
-// `tick` ""quote"" 'q'
-// @lengthOf(
-0 , 3// @lengthOf(
-, ""{,}"" ,
-""1"" ,
-00  ,
-0123456789
-,
-    ""// no comment"" ]
-:As
-    , }
-    , } , repeat char[
-    10
-]
-o `
-`
-, @calculatedFrom(
-    //
-    ""`tick`"" //x
-) repeat crc {
-    repeatCount o ,
-    u8x
-As, } ,
-} packet pack{@calculatedFrom( """ ++ [233]%N ++ runes_of_ascii "t" ++ [233]%N ++ runes_of_ascii """ )  u32 f32a
-,
-}
-    MetaData float
-{u32 options1 , }
-packet
-f32a { }
-")).
-Eval vm_compute in ("<<<M298>>>" ++ check (runes_of_ascii "
-options  { } options
-    {  uint8x =
-// @lengthOf(
-// " ++ [27880; 37322]%N ++ runes_of_ascii "
-42 uint8x = /// triple
-""abc"" ; //x
-_x='0'
+    string
+
+    Header	@lengthOf(
+
+    metadata)
+
+    ,
+
+leftPad
+    // trailing space 
+  @calculatedFrom(  ""a\""b"" ) `crlf
+line` ,
+
     }
-    packet u8x
-    { zchar[ 1 ] As
-`crlf
-line`, match metadata as float  { ""packet"" ://
-trueish , } , repeat
-rootA
-, repeat metadata repeatCount// trailing space 
-, @rightPad( // `tick` ""quote"" 'q'
-'0') i64 body `// not a comment`
-, @tag( 1) string string_
-    `line1
-line2` ,
-uint8 u8x`" ++ [28040; 24687; 31867; 22411]%N ++ runes_of_ascii "` ,
-packetx u128,	u tag , repeat Logon zchar
-`` ,  }packet zchar
-{
-    }	packet	MetaDataX { @lengthOf(
-Packet ) repeatCount  int
-`doc` , @tag(
-7 ) packetx @calculatedFrom( ""a\""b""// c
-) , match msg_type as x { ""\n"" : calculatedFrom }, //x
-@leftPad (// packet A { u8 x, }
-'\x00')@lengthOf( MetaDataX // c
-)
-    // a // b
-    char[007
-] a1`tab	here`, As
-    @calculatedFrom( ""`tick`"") `// not a comment`,} 	 ")).
-Eval vm_compute in ("<<<M1898>>>" ++ check (runes_of_ascii "root packet i64_ {
-    trueish,
-    @calculatedFrom(""abc"")
-    @tag(7)
-    // c
-    int16 asx,
-    @calculatedFrom(""a\\"")
-    float32 crc @lengthOf(Foo),
-    @tag(42)
-    zchar[7] asx @lengthOf(calculatedFrom) `// not a comment`,//
-    repeat zchar[1] As,
-    chars `two words`,
-    @calculatedFrom(""1"")
-    @tag(0123456789)
-    @leftPad('0')
-    repeat char[] BodyLength `tab	here`,
-}
-
-MetaData u128 {
-    u16 i64_,
-    float32 asx `two words`,
-    i64 leftPad,
-    zchar[00] _x,
-}
-
-MetaData chars {
-    Foo crc `say ""hi""`,
-    uint8 u `two words`,
-    f32 pack `crlf
-        line`,
-    string _x `" ++ [233]%N ++ runes_of_ascii "`,
-}
-
-packet x_y_z {
-}
-
-options {
-    calculatedFrom = ""CRC32""
-    crc = uint16;
-    u = false
-    Foo = char
-}// " ++ [128512]%N ++ runes_of_ascii " emoji")).
-Eval vm_compute in ("<<<M184>>>" ++ check (runes_of_ascii "packet options1{@leftPad	( '0' )	@rightPad ( // a // b
-'\x00'
-) @tag(
-255
-) /// triple
-repeat string As `
-`,
-@calculatedFrom(
-"""" )@calculatedFrom(//x
-""x y"" )
-a1
-{ Foo {trueish { tag
-@lengthOf(  i8i8 ) `doc`
-, }
-, zchar[
-00 ] f32a @lengthOf( calculatedFrom) , repeat
-zchar[ 1
-    ] stringy`{ , }`
-    , },uint64  repeatCount	@lengthOf(// `tick` ""quote"" 'q'
-asx
-    ) , char[ 42
-] lengthOf @calculatedFrom(// c
-""packet""), char[ 10 ] calculatedFrom @lengthOf( BodyLength ), } ,
-asx`// not a comment`,  } options { matchKey =""" ++ [128512]%N ++ runes_of_ascii """ falsey = ""a\""b"" ; A // a // b
-= ""CRC32"" msg_type
-    =
-    //x
-    """ ++ [233]%N ++ runes_of_ascii "t" ++ [233]%N ++ runes_of_ascii """	; } MetaData o//	t
-{
-} packet
-Pad{  }")).
-Eval vm_compute in ("<<<M348>>>" ++ check (runes_of_ascii "root // c
-packet asx { @rightPad
-    (
-' ' ) @lengthOf(  int)@tag( 0 ) u64 uint8x @calculatedFrom( ""packet"")
-    ,  uint32 i64_ ,
-    // c
-    repeat options1 o,match f32a as /// triple
-falsey// " ++ [27880; 37322]%N ++ runes_of_ascii "
-{ 42 : stringy 10 :
-As, """" :
-    Packet ,
-} ,@calculatedFrom(""it's""
-) // " ++ [128512]%N ++ runes_of_ascii " emoji
-f64	a1 ,
-    @lengthOf(
-    tag )
-    match roots as MetaDataX
-{
-""" ++ [128512]%N ++ runes_of_ascii """:  f32a
-    , ""\n"" :
-    As [ 255 ]: A ,  }, a1 @calculatedFrom(	""abc"" )
-`` , @rightPad(
-)
-    @rightPad (
-    '\x00'
-)@calculatedFrom(
-""CRC32"" )body As , }  root packet packetx
-{
-//x
-//
-repeat lengthOf Logon `" ++ [28040; 24687; 31867; 22411]%N ++ runes_of_ascii "` , //	t
-}")).
-Eval vm_compute in ("<<<M1399>>>" ++ check (runes_of_ascii "// top
-options {
-    // c1a
-    // c1b
-    LittleEndian = true;
-    // c5
-    StringPrefixLenType = u16;// c9a
-    // c9b
-    FixedStringPadChar = ' ';
-}// c14
-
-packet Logon {
-    @leftPad('0')
-    // c21
-    char[10] tag7,
-}// c27a
-
-// c27b
-root packet Ack {
-    int32 Px,// c34
-    uint16 count,
-    // c37
-    string Qty,// c40a
-    // c40b
-    string OrderId,
-    string Flags,
-    // c46
-    u8 x,// c49a
-    // c49b
-    match x as Body {
-        // c54
-        [58, 169] : Logon,
-        // c62a
-    },
-}")).
-Eval vm_compute in ("<<<M1404>>>" ++ check (runes_of_ascii "packet tag {
-    string matchKey `line1
-        line2`,
-    @tag(0)
-    @calculatedFrom(""1"")
-    @calculatedFrom(""a\""b"")
-    float64 matchKey,
-}
-
-options {
-    crc = true
-    msg_type = true;
-}
-
-packet o {
-    match roots as calculatedFrom {
-        ""// no comment"" : msg_type,
-        ""{,}"" : u128,
-        [65535, 0123456789] : body,
-    },
-    @rightPad(' ')
-    repeat string_ i64_,
-    @lengthOf(lengthOf)
-    @tag(255)
-    @tag(00)
-    char[] stringy,
-}")).
-Eval vm_compute in ("<<<M1140>>>" ++ check (runes_of_ascii "// top
-MetaData
-    // c0
-leftPad // c1
-{
-    // c2
-chars // c3a
-  // c3b
-MetaDataX // c4
-, // c5a
-  // c5b
-} packet // c7a
-  // c7b
-repeatCount // c8
-{ char[
-    // c10
-255 // c11a
-  // c11b
-] // c12a
-  // c12b
-uint8x
-    // c13
-`" ++ [233]%N ++ runes_of_ascii "` // c14a
-  // c14b
-,
-    // c15
-} // c16a
-  // c16b
-MetaData // c17a
-  // c17b
-pack // c18
-{ // c19a
-  // c19b
-As // c20a
-  // c20b
-Foo
-    // c21
-,
-    // c22
-} // c23a
-  // c23b
 ")).
-Eval vm_compute in ("<<<M1633>>>" ++ check (runes_of_ascii "packet	zchar
-
-    {
-	@calculatedFrom(
-
-""packet""
-
-    ) @lengthOf(
-	body	)
+Eval vm_compute in ("<<<M335>>>" ++ check (runes_of_ascii "//	t
+packet u8x  {
+u8x { body
+@calculatedFrom(	""`tick`"") `say ""hi""`
+,match a1	as
+    asx // c
+{
+    //	t
+    0
+    :
+// " ++ [27880; 37322]%N ++ runes_of_ascii "
+// @lengthOf(
+asx }
+    ,}
+, @rightPad ( )
+    match Logon as	x { [
+    00 , ""// no comment"" , ""a\\"",0123456789
+    // trailing space 
+    ,
+    4294967296 ] : crc , 00:options1 , // " ++ [27880; 37322]%N ++ runes_of_ascii "
+42
+    :i8i8,0 : o 0123456789
+: body , } ,@tag(
+7 )float
     @lengthOf(
-	A
-    ) 
-repeat /// triple
-    u128{  f32a 
-chars
-`` , repeat
-x_y_z
-`tab	here`,	// c
-      }
-    ,	// " ++ [27880; 37322]%N ++ runes_of_ascii "
-
-  repeat
-	Logon
-	{ 	 // " ++ [27880; 37322]%N ++ runes_of_ascii "
-    u  @calculatedFrom( 	 // `tick` ""quote"" 'q'
-    ""// no comment""
-
-) 	 //
-	`two words`
-	,char 
-u8x
-
-,uint32 uint8x
-	, 
-},int8
-
-    asx``
+stringy) `" ++ [233]%N ++ runes_of_ascii "`,
+u
+    // c
+    @lengthOf( msg_type )
 ,
-}
-")).
-Eval vm_compute in ("<<<M1234>>>" ++ check (runes_of_ascii "// top
-options // c0
-{ // c1
-f32a // c2
-= // c3
-0 // c4
-} // c5
-packet // c6
-trueish // c7
-{ // c8
-} // c9
-MetaData // c10
-_x // c11
-{ // c12
-char[ // c13
-0123456789 // c14
-] // c15
-zchar // c16
-, // c17
-string // c18
-crc // c19
-, // c20
-char[ // c21
-1 // c22
-] // c23
-options1 // c24
-, // c25
-uint8 // c26
-repeatCount // c27
-, // c28
-} // c29
+    }")).
+Eval vm_compute in ("<<<M76>>>" ++ check (runes_of_ascii "packet rootA { repeat uint16 stringy `" ++ [233]%N ++ runes_of_ascii "`
+,body
+@lengthOf( stringy ) , int32 matchKey // " ++ [27880; 37322]%N ++ runes_of_ascii "
+,
+    @lengthOf(roots)@calculatedFrom( ""a\""b""
+) @leftPad(' ') i64
+    leftPad
+@lengthOf( repeatCount )
+`u8 x,` , //	t
+f64 len
+    @lengthOf( BodyLength// trailing space 
+) `// not a comment` , @rightPad
+(
+)
+    @leftPad ( '0')repeat
+string len
+, // c
+char[] chars `two words`	, } //	t")).
+Eval vm_compute in ("<<<M245>>>" ++ check (runes_of_ascii "MetaData float{ int16
+// c
+// " ++ [128512]%N ++ runes_of_ascii " emoji
+chars , int8 _x
+, char	charz ,
+Header  u8x
+    , u16 _x
+,
+    // @lengthOf(
+    x_y_z repeatCount ,}	packet Foo
+{ @tag(//	t
+1  )
+string Logon	`
+`
+, }//x
+options{ zchar =  ' ' trueish = //x
+""""
+    leftPad =255 ;
+}	root packet options1 {u64 packetx// `tick` ""quote"" 'q'
+@calculatedFrom(""// no comment""  ) ``,}
 ")).
 Eval vm_compute in ("<<<M377>>>" ++ check (runes_of_ascii "packet crc {match  trueish
     as
@@ -808,119 +661,112 @@ tag
 x= 10;
 }
 ")).
-Eval vm_compute in ("<<<M1801>>>" ++ check (runes_of_ascii "packet Z9_ {
-    @calculatedFrom(""packet"")
-    char BodyLength,
-    match chars as falsey {
-        [
-            65535, 10, """ ++ [128512]%N ++ runes_of_ascii """, """ ++ [28040; 24687]%N ++ runes_of_ascii """, ""`tick`"",
-            ""a\\"", ""a\""b""
-        ] : repeatCount,
-        ""x y"" : chars,
-        // " ++ [128512]%N ++ runes_of_ascii " emoji
-        65535 : calculatedFrom,
+Eval vm_compute in ("<<<M1435>>>" ++ check (runes_of_ascii "packet float {
+    @rightPad()
+    // c5a
+    // c5b
+    rootA @lengthOf(trueish),
+    // c10
+    stringy @lengthOf(matchKey),// c15a
+    // c15b
+    char[4294967296] pack @lengthOf(uint8x),
+}// c24
+
+root packet trueish {
+    // c28
+    repeat uint64 u128 `line1
+        line2`,
+}")).
+Eval vm_compute in ("<<<M1704>>>" ++ check (runes_of_ascii "packet A {
+    // c2a
+    // c2b
+    u8 a,
+}// c6a
+
+// c6b
+packet B {
+    // c9
+    u16 b,// c12
+}// c13a
+
+// c13b
+root packet P {
+    u8 K,
+    match K as M {
+        // c25a
+        // c25b
+        1 : A,
+        // c29
+        1 : B,
     },
 }")).
-Eval vm_compute in ("<<<M1253>>>" ++ check (runes_of_ascii "// top
-packet // c0
-Inner // c1
-{ // c2
-u8 // c3a
-  // c3b
-a // c4
-,
-    // c5
-} // c6
-root // c7
-packet // c8a
-  // c8b
-P // c9
-{ // c10a
-  // c10b
-repeat // c11a
-  // c11b
-Inner items // c13
-, // c14
+Eval vm_compute in ("<<<M1668>>>" ++ check (runes_of_ascii "
+packet
+lengthOf { }  root
+packet
+leftPad {zchar[
+    00  // a // b
+]Foo  `` 	 // c
+  ,
+@calculatedFrom(	""1""
+) @leftPad
+(
+' '
+    // trailing space 
+      // " ++ [27880; 37322]%N ++ runes_of_ascii "
+
+	)
+
+@leftPad (
+	' '
+)
+
+repeat u8
+	options1
+
+,	}")).
+Eval vm_compute in ("<<<M1425>>>" ++ check (runes_of_ascii "packet A 
+{ 
 u8
-    // c15
-x , // c17a
-  // c17b
-} // c18
-")).
-Eval vm_compute in ("<<<M1318>>>" ++ check (runes_of_ascii "packet FooBar // c1
-{ u8 a ,
-    // c5
-} // c6
-packet foo_bar // c8a
-  // c8b
-{
-    // c9
-u16
-    // c10
-b , // c12a
-  // c12b
-} // c13
-root // c14
-packet R { // c17a
-  // c17b
-FooBar ,
-    // c19
-foo_bar // c20
-, } ")).
-Eval vm_compute in ("<<<M1295>>>" ++ check (runes_of_ascii "packet
-    A{ 
-u8 a,
-}packet
-B
 
-{u16
-	b
-
-    , } root
-packet 
-P
-
-    {  u8
-    K1
-, u8
-
-K2 
-,match K1
-	as	M1
-{
-1
-    :
-
-A,
-
-    } ,	match
-
-K2
-as M2  {
-1:B ,
+    a,
     }
-    ,}
-")).
-Eval vm_compute in ("<<<M1256>>>" ++ check (runes_of_ascii "// top
-root // c0
-packet P // c2
-{ // c3
-hdr
-    // c4
-{
-    // c5
-u8 // c6
-a // c7a
-  // c7b
-,
-    // c8
-} , // c10
-u8 // c11
-x // c12a
-  // c12b
-, }
-    // c14
-")).
+
+    packet
+    B
+
+    {
+	u16 b,
+
+    }
+    root packet P
+    {u8  K,match
+	K
+as
+M
+	{ [
+    1
+    ,  2
+
+] :
+A,  3	:
+
+    B
+	,7 :
+
+A  ,  }
+
+,}")).
+Eval vm_compute in ("<<<M1827>>>" ++ check (runes_of_ascii "root packet _x {
+    uint32 trueish @calculatedFrom(""1"") `crlf
+    line`,
+}
+
+//
+packet Header {
+    repeat u64 stringy `// not a comment`,
+    float32 msg_type,
+}")).
 Eval vm_compute in ("<<<M441>>>" ++ check (runes_of_ascii "packet uint8x
 { match pack
     as msg_type	{
@@ -932,33 +778,8 @@ a1
     { } options {packetx
     = '\x00'	; u128= ""a	b""  ; }
 ")).
-Eval vm_compute in ("<<<M1920>>>" ++ check (runes_of_ascii "  packet 
-A { match 
-k
-as
-n	{  [
-""a"" ,""bb"" ,  007
-
-,	""d""
-,	""e""
-
-    , 66 
-,
-
-    ""g"" ,
-""h""  ,
-
-    9,
-""j"" ,""k""
-,
-    12
-]  :
-	B , 2
-: C}  , }
-
-")).
-Eval vm_compute in ("<<<M538>>>" ++ check (runes_of_ascii "packet uint8x
-{ match pack
+Eval vm_compute in ("<<<M403>>>" ++ check (runes_of_ascii "packet uint8x
+007 match pack
     as msg_type	{
     0123456789 :	float
 }
@@ -966,286 +787,235 @@ Eval vm_compute in ("<<<M538>>>" ++ check (runes_of_ascii "packet uint8x
 } packet //	t
 a1
     { } options {packetx
-    = '\x00'	%; u128= ""a	b""  ; }
-")).
-Eval vm_compute in ("<<<M492>>>" ++ check (runes_of_ascii "packet uint8x
-{ match pack
-    as msg_type	{
-    0123456789 :	float
-}
-,
-} packet //	t
-a1
-    { } options {=
-    packetx '\x00'	; u128= ""a	b""  ; }
-")).
-Eval vm_compute in ("<<<M1869>>>" ++ check (runes_of_ascii "packet A {
-    match k as n {
-        [
-            ""a"", ""bb"", ""c c"", ""d"", ""e"",
-            ""f"", ""g"", ""h"", ""i""
-        ] : B,
-        2 : C,
-    },
-}")).
-Eval vm_compute in ("<<<M520>>>" ++ check (runes_of_ascii "packet uint8x
-{ match pack
-    as msg_type	{
-    0123456789 :	float
-}
-,
-} packet //	t
-a1
-    { } options {packetx
-    = '\x00'	; u128=   ; }
-")).
-Eval vm_compute in ("<<<M490>>>" ++ check (runes_of_ascii "packet uint8x
-{ match pack
-    as msg_type	{
-    0123456789 :	float
-}
-,
-} packet //	t
-a1
-    { } options {
     = '\x00'	; u128= ""a	b""  ; }
 ")).
-Eval vm_compute in ("<<<M1824>>>" ++ check (runes_of_ascii "  packet
-A{
-
-    match k
-    as  n 
-{ [	""a""	,	""bb""
-	, 007
-
+Eval vm_compute in ("<<<M550>>>" ++ check (runes_of_ascii "packet uint8x
+{ match pack
+    as msg_type	{
+    0123456789 :	caf" ++ [233]%N ++ runes_of_ascii "_1
+}
 ,
-    ""d"" ,
+} packet //	t
+a1
+    { } options {packetx
+    = '\x00'	; u128= ""a	b""  ; }
+")).
+Eval vm_compute in ("<<<M507>>>" ++ check (runes_of_ascii "packet uint8x
+{ match pack
+    as msg_type	{
+    0123456789 :	float
+}
+,
+} packet //	t
+a1
+    { } options {packetx
+    = '\x00'	u128 ;= ""a	b""  ; }
+")).
+Eval vm_compute in ("<<<M433>>>" ++ check (runes_of_ascii "packet uint8x
+{ match pack
+    as msg_type	{
+    ""`tick`"" :	float
+}
+,
+} packet //	t
+a1
+    { } options {packetx
+    = '\x00'	; u128= ""a	b""  ; }
+")).
+Eval vm_compute in ("<<<M684>>>" ++ check (runes_of_ascii "// @lengthOf(
+packet i8i8 { u128 o , }
+options { MetaDataX = true;
+    BodyLength =""packet"" x_y_z= 007
+crc //x
+= ""abc"" ;
+    msg_type =
+i16 } }")).
+Eval vm_compute in ("<<<M681>>>" ++ check (runes_of_ascii "// @lengthOf(
+packet i8i8 { u128 o , }
+options { MetaDataX = true;
+    BodyLength =""packet"" x_y_z= 007
+crc //x
+= ""abc"" ;
+    msg_type i16
+= }")).
+Eval vm_compute in ("<<<M1544>>>" ++ check (runes_of_ascii "// top
+options {
+    // c1a
+    // c1b
+    FixedStringPadFromLeft = true;// c5a
+}
 
-""e"" ,  66,
-""g"" ,""h"" 
-, 
-9  ,
+// c6
+root packet P {
+    // c10
+    char[4] z,
+}// c16a")).
+Eval vm_compute in ("<<<M37>>>" ++ check (runes_of_ascii "//
+root /// triple
+packet // trailing space 
+pack {
+@leftPad(
+    ' ' )
+    repeat trueish zchar ,	} root
+    packet // " ++ [27880; 37322]%N ++ runes_of_ascii "
+Header { }")).
+Eval vm_compute in ("<<<M1922>>>" ++ check (runes_of_ascii "
+options
+{ 
+Logon
+    =
+0} options  { 
+msg_type = 3
+    MetaDataX= 
+    // " ++ [128512]%N ++ runes_of_ascii " emoji
+      int8	uint8x
+= """"	;	As
+=
+'0'
+	}
+")).
+Eval vm_compute in ("<<<M1152>>>" ++ check (runes_of_ascii "MetaData leftPad { chars MetaDataX
+// c
+, } packet repeatCount { char[ 255 ] uint8x `" ++ [233]%N ++ runes_of_ascii "` , } MetaData pack { As Foo , }")).
+Eval vm_compute in ("<<<M1184>>>" ++ check (runes_of_ascii "MetaData leftPad { chars MetaDataX , } packet repeatCount { char[ 255 ] uint8x `" ++ [233]%N ++ runes_of_ascii "` , } MetaData pack { As
+// c
+Foo , }")).
+Eval vm_compute in ("<<<M1828>>>" ++ check (runes_of_ascii "packet A  {match 
+k	as	n
 
-    ""j""  ]  :
+    {
 
-B , 
-2 :
+[""a""  , 22, 
+""c c"" 
+,4
+,""e""
+, 66  ,
+	""g""	,
+	8  ,
+""i"" 
+]
+:	B	2
+	:
 	C 
 }
-,	}
+	,}
 
 ")).
-Eval vm_compute in ("<<<M1532>>>" ++ check (runes_of_ascii "packet A {
-    match k as n {
-        [
-            007, 66, ""a"", ""bb"", ""d"",
-            ""e"", ""g""
-        ] : B,
-        2 : C,
-    },
-}")).
-Eval vm_compute in ("<<<M1614>>>" ++ check (runes_of_ascii "
-packet	A {
-match
-
-    k as
-
-n { [ 1
-
-,  22 ,
-	""c c"" ,
-
-    4 ,
-
-    5
-    , ""f""
-    ] 
-: B
-    2
-
-    : C  }	,
-    } ")).
-Eval vm_compute in ("<<<M1189>>>" ++ check (runes_of_ascii "MetaData leftPad { chars MetaDataX , } packet repeatCount { char[ 255 ] uint8x `" ++ [233]%N ++ runes_of_ascii "` , } MetaData pack { As Foo , } // c
+Eval vm_compute in ("<<<M1279>>>" ++ check (runes_of_ascii "options {
+    LittleEndian = true;
+}
+root packet P {
+    u16 a,
+    u32 Sum @calculatedFrom(""CR\
+C32""),
+}
 ")).
-Eval vm_compute in ("<<<M1168>>>" ++ check (runes_of_ascii "MetaData leftPad { chars MetaDataX , } packet repeatCount { char[ 255 ]
-// c
-uint8x `" ++ [233]%N ++ runes_of_ascii "` , } MetaData pack { As Foo , }")).
-Eval vm_compute in ("<<<M302>>>" ++ check (runes_of_ascii "packet string_{@lengthOf(	float ) // @lengthOf(
-BodyLength { match uint8x as i64_ { 0123456789
-: As
-    , } , } , }")).
-Eval vm_compute in ("<<<M911>>>" ++ check (runes_of_ascii "packet A {
+Eval vm_compute in ("<<<M889>>>" ++ check (runes_of_ascii "packet A {
   match k as n {
-    [""a"", 22, ""c c"", 4, ""e"", 66, ""g"", 8, ""i"", 10, ""k"", 12] : B
+    [""a"", ""bb"", 007, ""d"", ""e"", 66, ""g"", ""h"", 9, ""j""] : B
     2 : C
   },
 }")).
-Eval vm_compute in ("<<<M158>>>" ++ check (runes_of_ascii "
-MetaData charz { As u128 , Logon options1 `say ""hi""` ,
-    zchar[ 0
-// @lengthOf(
-//
-]Logon ,
-    }
-")).
-Eval vm_compute in ("<<<M854>>>" ++ check (runes_of_ascii "packet A {
+Eval vm_compute in ("<<<M882>>>" ++ check (runes_of_ascii "packet A {
   match k as n {
-    [""a"", ""bb"", ""c c"", ""d"", ""e"", ""f"", ""g"", ""h""] : B,
+    [1, ""bb"", 007, ""d"", 5, ""f"", 7, ""h"", 9, ""j""] : B,
     2 : C
   },
 }")).
-Eval vm_compute in ("<<<M119>>>" ++ check (runes_of_ascii "packet u{ @tag(10 // a // b
-) tag  @lengthOf( A
-// " ++ [128512]%N ++ runes_of_ascii " emoji
-// a // b
-) , repeat options1 ,  }")).
-Eval vm_compute in ("<<<M629>>>" ++ check (runes_of_ascii "
+Eval vm_compute in ("<<<M630>>>" ++ check (runes_of_ascii "
 packet
-    asx {match u128 as lengthOf
+    a@tagsx {match u128 as lengthOf
 {
 //	t
 // `tick` ""quote"" 'q'
 255 : x ,
-    } ~ ,	}")).
-Eval vm_compute in ("<<<M594>>>" ++ check (runes_of_ascii "
+    } ,	}")).
+Eval vm_compute in ("<<<M682>>>" ++ check (runes_of_ascii "// @lengthOf(
+packet i8i8 { u128 o , }
+options { MetaDataX = true;
+    BodyLength =""packet""")).
+Eval vm_compute in ("<<<M849>>>" ++ check (runes_of_ascii "packet A {
+  match k as n {
+    [""a"", ""bb"", 007, ""d"", ""e"", 66, ""g""] : B,
+    2 : C
+  },
+}")).
+Eval vm_compute in ("<<<M1811>>>" ++ check (runes_of_ascii "packet A {
+    match k as n {
+        [1, 22, 4, 5, ""c c""] : B,
+        2 : C,
+    },
+}")).
+Eval vm_compute in ("<<<M116>>>" ++ check (runes_of_ascii "root packet Z9_ { repeat lengthOf
+pack , repeat
+    A {	repeatCount`doc` ,
+    },	}")).
+Eval vm_compute in ("<<<M616>>>" ++ check (runes_of_ascii "
 packet
     asx {match u128 as lengthOf
 {
 //	t
 // `tick` ""quote"" 'q'
-: 255 x ,
-    } ,	}")).
-Eval vm_compute in ("<<<M1086>>>" ++ check (runes_of_ascii "packet A { match k as n // a
- { // b
- 1 // c
- : // d
- B // e
- , // f
- } // g
- , // h
- }")).
-Eval vm_compute in ("<<<M866>>>" ++ check (runes_of_ascii "packet A {
+255 : x ,")).
+Eval vm_compute in ("<<<M166>>>" ++ check (runes_of_ascii "packet calculatedFrom {repeat // packet A { u8 x, }
+string Foo`{ , }`	, }
+")).
+Eval vm_compute in ("<<<M813>>>" ++ check (runes_of_ascii "packet A {
   match k as n {
-    [1, 22, 007, 4, 5, 66, 7, 8, 9] : B
+    [1, 22, 007, 4, 5] : B,
     2 : C
   },
 }")).
-Eval vm_compute in ("<<<M1616>>>" ++ check (runes_of_ascii "
-
-  // top
-  MetaData 
-
-    // c0
-      tag 
-
-// c1
-    {  // c2
-	} 
-    // c3
-")).
-Eval vm_compute in ("<<<M1505>>>" ++ check (runes_of_ascii "// top
-	MetaData
-	// c0
-tag 
-// c1
-		{ 
-        // c2
-    	} 
-	    // c3
-")).
-Eval vm_compute in ("<<<M805>>>" ++ check (runes_of_ascii "packet A {
+Eval vm_compute in ("<<<M1825>>>" ++ check (runes_of_ascii "packet u {
+    @tag(10)
+    tag @lengthOf(A),
+    repeat options1,
+}")).
+Eval vm_compute in ("<<<M782>>>" ++ check (runes_of_ascii "packet A {
   match k as n {
-    [1, ""bb"", 007, ""d""] : B
+    [1, ""bb""] : B,
     2 : C
   },
 }")).
-Eval vm_compute in ("<<<M1413>>>" ++ check (runes_of_ascii "  packet
-A	{ 
-B  b `
-x`
-	,
-    B
-    `
-x`
-, 
-repeat
-
-B
-bs `
-x`
-, }
-")).
-Eval vm_compute in ("<<<M246>>>" ++ check (runes_of_ascii "MetaData x {x Packet
-,i32 lengthOf
-, // `tick` ""quote"" 'q'
-}
-")).
-Eval vm_compute in ("<<<M1222>>>" ++ check (runes_of_ascii "// top
-packet
-    // c0
-x
-    // c1
-{
-    // c2
-}
-    // c3
-")).
-Eval vm_compute in ("<<<M1867>>>" ++ check (runes_of_ascii "// c
-packet body {
-    i32 f32a `{ , }`,
-}
-
-options {
-}")).
-Eval vm_compute in ("<<<M1210>>>" ++ check (runes_of_ascii "packet body { i32 f32a `{ , }`
+Eval vm_compute in ("<<<M751>>>" ++ check (runes_of_ascii "options @calculatedFrom( repeat } [ @tag( uint32 char[] ] :")).
+Eval vm_compute in ("<<<M1093>>>" ++ check (runes_of_ascii "packet A { repeat // a
+ B // b
+ b // c
+ `d` // e
+ , }")).
+Eval vm_compute in ("<<<M1218>>>" ++ check (runes_of_ascii "packet body { i32 f32a `{ , }` , } options {
 // c
-, } options { }")).
-Eval vm_compute in ("<<<M945>>>" ++ check (runes_of_ascii "MetaData M {
-    u8 x `a
+}")).
+Eval vm_compute in ("<<<M233>>>" ++ check (runes_of_ascii "MetaData _x { i64 u128	, Packet Header, } 	 ")).
+Eval vm_compute in ("<<<M1519>>>" ++ check (runes_of_ascii "
+options{options1  =
+	7
 
-b`,
-    T t `a
+    ;
 
-b`,
-}")).
-Eval vm_compute in ("<<<M965>>>" ++ check (runes_of_ascii "options {
-    a = ""x\
-y"";
-    b = ""x\
-y""
-}")).
-Eval vm_compute in ("<<<M964>>>" ++ check (runes_of_ascii "root packet A {
-    u8 x `tab
-	x`,
-}")).
-Eval vm_compute in ("<<<M1662>>>" ++ check (runes_of_ascii "packet A {
-    u8 x `d" ++ [12288]%N ++ runes_of_ascii "`,// c" ++ [12288]%N ++ runes_of_ascii "
-}")).
-Eval vm_compute in ("<<<M1076>>>" ++ check (runes_of_ascii "MetaData M {
+    }")).
+Eval vm_compute in ("<<<M1092>>>" ++ check (runes_of_ascii "root // a
+ packet // b
+ A // c
+ { }")).
+Eval vm_compute in ("<<<M753>>>" ++ check (runes_of_ascii ":l" ++ [65533; 23]%N ++ runes_of_ascii "9" ++ [65533; 1549]%N ++ runes_of_ascii "F" ++ [65533; 65533; 65533; 65533]%N ++ runes_of_ascii "j)" ++ [65533; 65533; 27; 25; 65533; 65533; 261; 14; 65533]%N ++ runes_of_ascii "V" ++ [65533; 65533]%N ++ runes_of_ascii "4b-" ++ [65533; 65533]%N)).
+Eval vm_compute in ("<<<M1077>>>" ++ check (runes_of_ascii "MetaData M {
 }// c
-packet A {}")).
-Eval vm_compute in ("<<<M1859>>>" ++ check (runes_of_ascii "  packet
-A
-	{
-}  // c" ++ [8233]%N ++ runes_of_ascii "
- 
-")).
-Eval vm_compute in ("<<<M1767>>>" ++ check (runes_of_ascii "
-// c" ++ [133]%N ++ runes_of_ascii "
-packet  A
-	{
-}")).
-Eval vm_compute in ("<<<M170>>>" ++ check (runes_of_ascii "packet pack
-{
-} 	 ")).
-Eval vm_compute in ("<<<M1011>>>" ++ check (runes_of_ascii "packet A {
-}
-// c" ++ [8232]%N)).
-Eval vm_compute in ("<<<M974>>>" ++ check (runes_of_ascii "packet A {
-}// c ")).
-Eval vm_compute in ("<<<M46>>>" ++ check (runes_of_ascii "//x
+options {}")).
+Eval vm_compute in ("<<<M1685>>>" ++ check (runes_of_ascii "
 
-// a // b
-")).
-Eval vm_compute in ("<<<M399>>>" ++ check (runes_of_ascii "packet")).
-Eval vm_compute in ("<<<M86>>>" ++ check (runes_of_ascii "  ")).
+  packet	A {
+}  // c" ++ [160]%N)).
+Eval vm_compute in ("<<<M1064>>>" ++ check (runes_of_ascii "packet A {
+}// a// b")).
+Eval vm_compute in ("<<<M1132>>>" ++ check (runes_of_ascii "MetaData u // c
+{ }")).
+Eval vm_compute in ("<<<M1027>>>" ++ check (runes_of_ascii "// c" ++ [8287]%N ++ runes_of_ascii "
+packet A {
+}")).
+Eval vm_compute in ("<<<M1009>>>" ++ check (runes_of_ascii "packet A {
+}// c" ++ [8232]%N)).
+Eval vm_compute in ("<<<M1910>>>" ++ check (runes_of_ascii "packet pack {
+}")).
+Eval vm_compute in ("<<<M1040>>>" ++ check (runes_of_ascii "// c 	")).
+Eval vm_compute in ("<<<M736>>>" ++ check (runes_of_ascii " " ++ [12]%N ++ runes_of_ascii " ")).
